@@ -292,6 +292,16 @@ func vScenarioC04(rc *runCtx) {
 		}
 	}
 	rc.res.Scenario["table_size"] = len(prot)
+	announced := len(prot)
+	if mode != "custom" {
+		// what the built-in tables promise, whatever the CFG says: '~' always, with -e also the control bytes
+		prot[0x7e] = true
+		if cfg.escapeAll {
+			for _, c := range []byte{0x0d, 0x10, 0x11, 0x13, 0x18, 0x1b, 0x1d} {
+				prot[c] = true
+			}
+		}
+	}
 	if cfg.upload && len(prot) > 0 {
 		// every byte the client wrote between ACT and EXIT
 		up, _, _ := x.up[0].Snapshot()
@@ -325,7 +335,7 @@ func vScenarioC04(rc *runCtx) {
 			}
 			for i := 0; i < len(region); i++ {
 				c := region[i]
-				if c == 0xee {
+				if c == 0xee && announced > 0 {
 					if i+1 >= len(region) || !codes[region[i+1]] {
 						rc.violate("wire", "C04:leader-without-code", "the client wrote the leader byte 0xee followed by 0x%02x, which the announced table does not define, at offset %d of the escaped payload", region[vMin(i+1, len(region)-1)], i)
 						return
